@@ -25,5 +25,6 @@ GROUP = dict(
            dict(id='theory.inverse4', kind='raw', text=_c.theory_text('inverse4.rs')),
            dict(id='theory.inverse5', kind='raw', text=_c.theory_text('inverse5.rs')),
            dict(id='theory.inverse6', kind='raw', text=_c.theory_text('inverse6.rs')),
+           dict(id='theory.c03', kind='raw', text=_c.theory_text('c03.rs')),
     ],
 )
